@@ -1140,4 +1140,69 @@ theorem C02_complementary (tol eps : K) (ht : 0 ≤ tol) (o n : V3 K) (p : T3 (V
     | keep => rw [h1, h2] at tbl; exact tbl.elim
     | drop => rw [h1, h2] at tbl; exact tbl.elim
 
+
+/-! ### wholly behind, and face order stated on the assembly itself -/
+
+theorem classify_drop_of_behind (tol : K) (ht : 0 ≤ tol) (o n : V3 K) (p : T3 (V3 K))
+    (hb : offset o n p.a < -tol ∨ offset o n p.b < -tol ∨ offset o n p.c < -tol)
+    (hf : offset o n p.a ≤ tol ∧ offset o n p.b ≤ tol ∧ offset o n p.c ≤ tol) :
+    classifyFace (p.map fun v => vsign tol (offset o n v)) true = .drop := by
+  have tbl := PW.C01.C01_case_table tol (p.map (offset o n)) true
+  simp only [PW.C01.CaseTable, PW.C01.behindS, PW.C01.frontS, T3.map] at tbl
+  apply tbl.2.1.mpr
+  refine ⟨trivial, ?_, ?_⟩
+  · rcases hb with h | h | h
+    · left; exact (vsign_behind_iff ht _).mpr h
+    · right; left; exact (vsign_behind_iff ht _).mpr h
+    · right; right; exact (vsign_behind_iff ht _).mpr h
+  · obtain ⟨ha, hb', hc⟩ := hf
+    rintro (h1 | h1 | h1)
+    · have := (vsign_front_iff tol _).mp h1; linarith
+    · have := (vsign_front_iff tol _).mp h1; linarith
+    · have := (vsign_front_iff tol _).mp h1; linarith
+
+/-- **a mesh wholly behind the plane yields empty arrays**: every face selected, every face with a corner behind
+    and none in front ⇒ no vertices, no faces, empty mapping. -/
+theorem C02_wholly_behind (tol eps : K) (ht : 0 ≤ tol) (verts : List (V3 K)) (faces : List (T3 Nat)) (o n : V3 K)
+    (mask : List Bool) (hne : verts ≠ []) (hv : ∀ f ∈ faces, FaceValid verts.length f)
+    (hsel : ∀ i, mask.getD i true = true)
+    (hbehind : ∀ f ∈ faces,
+      (offset o n (facePos verts f).a < -tol ∨ offset o n (facePos verts f).b < -tol ∨
+        offset o n (facePos verts f).c < -tol) ∧
+      (offset o n (facePos verts f).a ≤ tol ∧ offset o n (facePos verts f).b ≤ tol ∧
+        offset o n (facePos verts f).c ≤ tol)) :
+    sliceMesh tol eps verts faces o n mask = ⟨[], [], []⟩ := by
+  have hspec := kinds_spec tol o n verts faces mask hv
+  have hdrop : ∀ e ∈ kindsOf tol o n verts faces mask, e.2.2 = FaceKind.drop := by
+    intro e he
+    obtain ⟨hget, _, hk⟩ := hspec e he
+    rw [hk, hsel]
+    have hf : e.2.1 ∈ faces := List.mem_of_getElem? hget
+    exact classify_drop_of_behind tol ht o n _ (hbehind _ hf).1 (hbehind _ hf).2
+  have hK : (kindsOf tol o n verts faces mask).filter isKeep = [] := by
+    apply filter_eq_nil_of_none
+    intro e he; obtain ⟨i, f, k⟩ := e; have := hdrop _ he; simp only at this; subst this; rfl
+  have hQ : (kindsOf tol o n verts faces mask).filterMap quadSel = [] := by
+    apply List.filterMap_eq_nil_iff.mpr
+    intro e he; obtain ⟨i, f, k⟩ := e; have := hdrop _ he; simp only at this; subst this; rfl
+  have hT : (kindsOf tol o n verts faces mask).filterMap triSel = [] := by
+    apply List.filterMap_eq_nil_iff.mpr
+    intro e he; obtain ⟨i, f, k⟩ := e; have := hdrop _ he; simp only at this; subst this; rfl
+  have he : verts.isEmpty = false := by cases verts <;> simp_all
+  unfold sliceMesh
+  simp only [he, Bool.false_eq_true, if_false, hK, hQ, hT, List.isEmpty_nil, Bool.and_self, if_true,
+    List.map_nil]
+
+/-- **independent of the order of the faces**, stated on the assembly: two valid meshes whose lists of
+    (positional face, selected) pairs are permutations of each other return permuted lists of triangles. -/
+theorem C02_face_order_mesh (tol eps : K) (o n : V3 K)
+    (verts₁ verts₂ : List (V3 K)) (faces₁ faces₂ : List (T3 Nat)) (mask₁ mask₂ : List Bool)
+    (h₁ : verts₁ ≠ []) (h₂ : verts₂ ≠ [])
+    (hv₁ : ∀ f ∈ faces₁, FaceValid verts₁.length f) (hv₂ : ∀ f ∈ faces₂, FaceValid verts₂.length f)
+    (hperm : (pfacesOf verts₁ faces₁ mask₁).Perm (pfacesOf verts₂ faces₂ mask₂)) :
+    (sliceMesh tol eps verts₁ faces₁ o n mask₁).positions.Perm
+      (sliceMesh tol eps verts₂ faces₂ o n mask₂).positions := by
+  rw [C02_positional tol eps verts₁ faces₁ o n mask₁ h₁ hv₁, C02_positional tol eps verts₂ faces₂ o n mask₂ h₂ hv₂]
+  exact C02_face_order tol eps o n _ _ hperm
+
 end PW.C02
